@@ -429,8 +429,18 @@ def run(ck: vlib.Check):
         common = set.intersection(*[{b["key"] for b in survey[f]} for f in files])
         for key in sorted(common):
             lists.append({"files": files, "branch": key})
+    # pairs of fixtures of one kind whose class layouts differ, read one after the other under ONE path string
+    same_path = []
+    for ext in (".rec", ".rtraw", ".dst"):
+        fs = [f for f in sorted(survey) if f.endswith(ext)]
+        cg = [f for f in fs if "cgem" in f]; other = [f for f in fs if "cgem" not in f]
+        if cg and other:
+            common = sorted(set.intersection({b["key"] for b in survey[cg[0]]}, {b["key"] for b in survey[other[0]]}))
+            keys = [k for k in common if "Digi" in k or "Mc" in k or "Trk" in k or "Track" in k][: (6 if ck.tier != "thorough" else 40)] or common[:6]
+            same_path += [[cg[0], other[0], keys], [other[0], cg[0], keys]]
+    ck.cov["same_path_pairs"] = [[a, b, len(k)] for a, b, k in same_path]
     cpath = ck.bdir / "concat.json"
-    cpath.write_text(json.dumps({"lists": lists}))
+    cpath.write_text(json.dumps({"lists": lists, "same_path_pairs": same_path}))
     rc, so, se = vlib.run_impl_script("c02_impl.py", ["concat", datadir, cpath], timeout=3000, cache_dir=ck.bdir / "nb_concat")
     allm = []
     if rc != 0:
